@@ -295,6 +295,9 @@ func (t Time) ActiveStates(idxs []int) []int {
 		if !IsActiveTick(tick) {
 			continue
 		}
+		if idxs != nil && !slices.Contains(idxs, i) {
+			continue
+		}
 		ret = append(ret, i)
 	}
 
